@@ -48,6 +48,7 @@ inductive ActKind where
   | mayRaise        -- truthy unless a helper raises (check_version, literal_eval, ensure_*)
   | viaItem (i : Nat)   -- `return v` where `v` was bound by the optional i-th conjunct: truthy iff that call succeeded
   | unknown         -- conditional on values: the recogniser cannot decide
+  | gate (minor : Nat)  -- `self.check_version((3, minor), ..)`: truthy if py_version >= (3, minor), else raises; resolved by `gateProg`
 deriving DecidableEq, Repr, Inhabited
 
 structure AltItem where
@@ -271,6 +272,7 @@ def execAlts : Nat → Nat → Nat → List Alt → Nat → St → Res × St
       | .mayRaise => (.ok s1.pos, { s1 with assumed := true })
       | .viaItem i => if (oks.reverse[i]?).getD false then (.ok s1.pos, s1) else (.fail s1.pos, s1)
       | .unknown => (.undecided, s1)
+      | .gate _ => (.ok s1.pos, { s1 with assumed := true })   -- unresolved gate: as `mayRaise`
     else
       let s2 := s0.reset mark
       if cut then (.fail mark, s2) else execAlts fuel rid (idx + 1) as mark s2
@@ -355,6 +357,18 @@ def execSepRepeat : Nat → Prim → Prim → Nat → Nat → St → Nat × Res 
       | _ => (n, .ok mark, s1.reset mark)
 
 end
+
+/-- Resolve the version gates for an effective `py_version` (3, v): a gate with threshold `m` lets its alternative
+    succeed when `m <= v` and raises the "only supported in Python (3, m) and above" SyntaxError otherwise. -/
+def gateAlt (v : Nat) (a : Alt) : Alt :=
+  match a.act with
+  | .gate m => { a with act := if m ≤ v then .truthy else .raises }
+  | _ => a
+def gateBody (v : Nat) : Body → Body
+  | .alts as wo ul => .alts (as.map (gateAlt v)) wo ul
+  | b => b
+def gateRule (v : Nat) (r : Rule) : Rule := { r with body := gateBody v r.body }
+def gateProg (v : Nat) (prog : Prog) : Prog := prog.map (gateRule v)
 
 /-- Initial state for a token list. -/
 def St.init (n : Nat) (invalid : Bool) (verbose : Bool := false) : St :=
